@@ -313,6 +313,7 @@ class Model:
 
     def op_add_isohybrid(self, op):
         self.hybrid = {k: op.get(k) for k in ('part_entry', 'mbr_id', 'part_offset', 'sectors', 'heads', 'part_type', 'mac', 'efi')}
+        self.hybrid['_gen'] = self.generation
 
     def op_rm_isohybrid(self, op):
         self.hybrid = None
@@ -443,7 +444,7 @@ def hide_ok(m, node):
         return True
     if len(m.names_of_blob(node.blob)) > 1:
         return True
-    return all(e.get('load_size') is None for e in ents)
+    return all(e.get('load_size') is None and (e.get('media') or 'noemul') == 'noemul' for e in ents)
 
 
 def valid(m, op):
